@@ -187,6 +187,12 @@ WireBodyOK(flag, negotiated, wire, logical) ==
   IF flag THEN RefDecode(negotiated, wire, FALSE) = logical ELSE wire = logical
 
 \* a response: flag set on a connection without compressor => error; corrupt compressed body => error
+\* transparency, server -> driver: a frame carrying the flag on a connection that negotiated a compressor, whose
+\* body is a well-formed (strict reading) compressed form, must be delivered - whatever its stream (responses and
+\* server-pushed events alike)
+GoodCompressedFrame(negotiated, flag, body) ==
+  flag /\ negotiated # "" /\ ~IsErr(RefDecode(negotiated, body, TRUE))
+
 ResponseMustFail(negotiated, flag, body) ==
   flag /\ (negotiated = "" \/ IsErr(RefDecode(negotiated, body, FALSE)))
 =============================================================================
